@@ -45,6 +45,14 @@ def mutRes (base : PyVal) (r : RowBytes.Bytes) : List PyVal → Option (List PyV
       some ((if x = base then .str "same" else x) :: out)
     | _, _ => none
 
+/-- Run-length compression of a list of outcomes. -/
+def runs : List PyVal → List (PyVal × Nat)
+  | [] => []
+  | x :: xs =>
+    match runs xs with
+    | (y, n) :: rest => if x = y then (y, n + 1) :: rest else (x, 1) :: (y, n) :: rest
+    | [] => [(x, 1)]
+
 def handle (op : String) (args : List PyVal) : Option (List PyVal) :=
   match op, args with
   | "pack", [.list row] =>
@@ -99,6 +107,12 @@ def handle (op : String) (args : List PyVal) : Option (List PyVal) :=
     match mutRes base r ms with
     | some out => some [base, .list out]
     | none => none
+  -- every tear point `lo ≤ k < hi` of a record: the decoder model on `r.take k` (the expression of theorem
+  -- `torn_rejected`), answered as runs of equal outcomes
+  | "tears", [.bytes r, .int lo, .int hi] =>
+    if lo < 0 ∨ hi < lo then none else
+    let outs := (List.range' lo.toNat (hi.toNat - lo.toNat)).map (fun k => decRes (decodeRow (r.take k)))
+    some [.list ((runs outs).map (fun p => .list [p.1, .int p.2]))]
   | "split", [.bytes data] =>
     match split data with
     | .ok rs => some [.list [.str "ok", .list (rs.map PyVal.bytes)]]
